@@ -114,4 +114,20 @@ def toCamelCase (s : List Char) : List Char :=
 /-- `w` has no capital letter (every reserved word but `None`, `True`, `False`) -/
 def noUpper (w : String) : Bool := w.toList.all fun c => !('A' ≤ c ∧ c ≤ 'Z')
 
+/-! ### module aliases under a method's context (`Service.with_context`, `Method.with_context`, `Address.module_alias`) -/
+
+/-- `Service.with_context`: every method is rendered under `collisions | set(v.flattened_fields.keys())`: the service-level names plus
+the KEYS of `_fields_mapping` (attribute paths, every reserved segment suffixed, joined by "."); `Method.with_context` hands the set
+unchanged to its input, output and LRO types -/
+def joinDots : List String → String
+  | [] => ""
+  | [a] => a
+  | a :: b :: t => a ++ "." ++ joinDots (b :: t)
+
+def methodCollisions (svcNames : List String) (sigFields : List Path) : List String :=
+  svcNames ++ sigFields.map fun p => joinDots (flattenKey p)
+
+/-- `Address.module_alias` is non-empty iff `self.module in self.collisions or self.module in RESERVED_NAMES` -/
+def isAliased (collisions : List String) (module : String) : Bool := collisions.contains module || isReserved module
+
 end GapicModel.Model.Names
